@@ -181,12 +181,13 @@ impl<'a> Ix<'a> {
                     cancelled: false,
                 }),
                 Ev::OpDone { sender, op, res } => {
-                    if let Some(o) = ix.ops.iter_mut().find(|o| o.sender == *sender && o.op == *op) {
+                    // (the operation that completes is a recent one: search from the back - long histories)
+                    if let Some(o) = ix.ops.iter_mut().rev().find(|o| o.sender == *sender && o.op == *op) {
                         o.done = Some((e.seq, res.clone()));
                     }
                 }
                 Ev::OpCancel { sender, op } => {
-                    if let Some(o) = ix.ops.iter_mut().find(|o| o.sender == *sender && o.op == *op) {
+                    if let Some(o) = ix.ops.iter_mut().rev().find(|o| o.sender == *sender && o.op == *op) {
                         o.cancelled = true;
                     }
                 }
@@ -2987,6 +2988,15 @@ pub fn check_all(out: &RunOut) -> Vec<Violation> {
             // the endpoint means payload bytes were taken for something else
             if let Some((sq, _, StopClass::Protocol(m))) = ix.stops.iter().find(|s| s.1 == 0 && matches!(s.2, StopClass::Protocol(_))) {
                 viol(&mut v, "C10", format!("C10/valid-stream-ended-connection/{}", ix.role()), format!("the peer sent only valid packets, the endpoint ended the connection with {m}"), *sq);
+            } else if let Some((sq, _)) = ix.ep_closed.iter().find(|c| c.1 == 0)
+                && ix.settle_seq.is_none_or(|s| *sq < s)
+                && out.plan.w_outcome[1] + out.plan.w_outcome[2] == 0
+                && !out.budget_hit
+                && out.panic.is_none()
+            {
+                // (nobody closes in this family - no fault, no failing handler, no closing sender: the endpoint
+                // closed a healthy connection on its own, e.g. because a reader abandoned a payload)
+                viol(&mut v, "C10", format!("C10/valid-stream-ended-connection/{}/closed", ix.role()), "the peer sent only valid packets and never closed, yet the endpoint closed the connection while the stream was still arriving".into(), *sq);
             }
         }
         "C20" | "C20L" => {
